@@ -136,3 +136,14 @@ func isLoad(v ssa.Value) (*ssa.UnOp, bool) {
 	u, ok := v.(*ssa.UnOp)
 	return u, ok && u.Op == token.MUL
 }
+
+// readsAckFields: the function loads Writer.rootPersisted or Writer.persistedCallbacks (the persister's grab).
+func readsAckFields(fn *ssa.Function, a *IdxAnchors) bool {
+	found := false
+	eachInstr(fn, func(in ssa.Instruction) {
+		if u, ok := in.(*ssa.UnOp); ok && u.Op == token.MUL && (isFieldAddr(u.X, a.WRootPersisted) || isFieldAddr(u.X, a.WPersistedCallbacks)) {
+			found = true
+		}
+	})
+	return found
+}
